@@ -144,6 +144,11 @@ def check_outcomes(sim, sc, out, strict_timeouts=True):
             # when nobody else competes (post phase) must never be turned away.
             if not r.bp and r.via == 'post':
                 sim.violation('outcome:rejected-although-the-server-is-idle', {'request': r.brief()})
+            elif not r.bp and r.timeout is not None and r.timeout >= 50 and not any(
+                    q is not r and (q.kind == 'cancelled' or (q.kind == 'full' and not q.bp)) and q.t1 is not None and r.t0 <= q.t1 < r.t1 - 1e-6 for q in out.recs):
+                # nobody else left the wait queue while this request was waiting (no cancelled caller, no other waiter giving up earlier),
+                # so no wake-up can have been swallowed by a leaving waiter: this request slept through ~100 virtual seconds although slots were returned
+                sim.violation('outcome:waiter-never-woken-although-slots-were-returned', {'request': r.brief()})
         elif r.kind == 'abandoned':
             pass
         elif r.kind == 'cancelled':
